@@ -160,6 +160,7 @@ type Interp struct {
 	inHarnessTop bool
 	insecureTaint map[int32]bool
 	fallbacks map[string]*Solver
+	prefers   []*Term
 
 	// stats (per worker, cumulative)
 	Instrs int64
@@ -203,6 +204,7 @@ func (in *Interp) resetPath(prefix []int) {
 	in.mapOrderNondet = false
 	in.noPanicDepth = 0
 	in.insecureTaint = map[int32]bool{}
+	in.prefers = nil
 }
 
 func (in *Interp) end(status, msg string) {
@@ -431,6 +433,82 @@ func (in *Interp) concretize(t *Term, max int, what string) int {
 	return k
 }
 
+// concretizeModel makes t concrete by asking the solver for feasible values
+// one at a time (value v: fork t==v / t!=v). Cheap when few values are
+// feasible. At most maxAlts values are explored; a remaining feasible
+// residual is recorded as a bound cut.
+func (in *Interp) concretizeModel(t *Term, what string, maxAlts int) uint64 {
+	if t.IsConst() {
+		return t.C
+	}
+	st := in.st
+	mk := func(v uint64) *Term {
+		if t.S.K == KInt {
+			return st.Eq(t, st.IntConst(new(big.Int).SetUint64(v)))
+		}
+		return st.Eq(t, st.Const(t.S.W, v))
+	}
+	for iter := 0; ; iter++ {
+		if in.pos < len(in.prefix) {
+			e := in.prefix[in.pos]
+			in.pos++
+			in.trace = append(in.trace, e)
+			if e >= 0 {
+				in.addPC(mk(uint64(e)))
+				return uint64(e)
+			}
+			in.addPC(st.Not(mk(uint64(-(e + 1)))))
+			continue
+		}
+		conds := append([]*Term(nil), in.pc...)
+		r, m := in.solver.Check(conds, true, []*Term{t})
+		if r == Unknown {
+			for _, name := range in.ex.Fallbacks {
+				if fb := in.fallback(name); fb != nil {
+					r, m = fb.Check(conds, true, []*Term{t})
+					if r != Unknown {
+						break
+					}
+				}
+			}
+		}
+		if r == Unsat {
+			in.end("assume", "no feasible value for "+what)
+		}
+		if r == Unknown {
+			in.ex.noteUnknown()
+			in.end("unknown", "solver unknown while concretising "+what)
+		}
+		bv, ok := m[t.ref()]
+		if !ok {
+			bv = new(big.Int)
+		}
+		if !bv.IsUint64() || bv.Uint64() > 1<<40 {
+			in.ex.noteBound(what + ": value too large to concretise")
+			in.end("bound", what+": infeasible to concretise")
+		}
+		v := bv.Uint64()
+		eq := mk(v)
+		ne := st.Not(eq)
+		rne, _ := in.check(ne, false)
+		if rne != Unsat {
+			if rne == Unknown {
+				in.ex.noteUnknown()
+			}
+			if iter+1 < maxAlts {
+				p := append(append([]int(nil), in.trace...), -(int(v) + 1))
+				in.ex.push(p)
+			} else {
+				in.ex.noteBound(what + ": more feasible values than explored")
+			}
+		}
+		in.pos++
+		in.trace = append(in.trace, int(v))
+		in.addPC(eq)
+		return v
+	}
+}
+
 func (in *Interp) violation(id, msg string) {
 	site := ""
 	if in.curFrame != nil && in.curFrame.curInstr != nil {
@@ -455,7 +533,21 @@ func (in *Interp) violationAt(id, msg, site string) {
 }
 
 func (in *Interp) violationAtF(id, msg, site, fname string) {
-	r, m := in.check(nil, true)
+	var r SatResult
+	var m Model
+	if len(in.prefers) > 0 {
+		// try the model that also satisfies the replay hints first
+		p := in.st.True
+		for _, x := range in.prefers {
+			p = in.st.And(p, x)
+		}
+		r, m = in.check(p, true)
+		if r != Sat {
+			r, m = in.check(nil, true)
+		}
+	} else {
+		r, m = in.check(nil, true)
+	}
 	if r == Unsat {
 		in.end("assume", "violation path infeasible")
 	}
